@@ -76,6 +76,8 @@ def one(d):
                         lost.append((meta['id'], c))
             rows.append((meta['id'], 'DETECTED' if detected else 'missed', detected))
             if write:
+                if prop:  # a partial sweep keeps what is recorded for the other checks
+                    detected = [x for x in meta.get('detected_by', []) if x['check'] != prop] + detected
                 meta['detected_by'] = detected
                 json.dump(meta, open(mp, 'w'), indent=1)
             print(meta['id'], 'DETECTED' if detected else 'missed', ' '.join(x['check'] + ':' + x['obligations'][0] for x in detected), flush=True)
